@@ -918,6 +918,69 @@ def check_exclusion_mechanisms(p, report, funcs, facts):
                         stale = (m, sorted(idx & hoisted)[0], b)
             if stale:
                 ex = [x for x in ex if x != (n, b, k)]
+        # (a) a mask written into THIS iteration's fresh row has to cover ALL earlier picks: indexing it with
+        #     the tail of the accumulator (`acc[-1:]`, `acc[-1]`) marks only the latest one
+        partial_mask = None
+        for (n, b, k) in list(ex):
+            n_st = n if isinstance(n, ast.stmt) else tree.stmt_of(n)
+            if k != "M1" or not isinstance(n_st, ast.Assign):
+                continue
+            t = n_st.targets[0]
+            chain = []
+            cur = t
+            while isinstance(cur, ast.Subscript):
+                chain.append(cur.slice)
+                cur = cur.value
+            row_fresh = bool(counters) and any(names_in(sl) & counters for sl in chain[1:] + (
+                [chain[0].elts[0]] if chain and isinstance(chain[0], ast.Tuple) and chain[0].elts else []))
+            pick_sl = chain[0].elts[-1] if chain and isinstance(chain[0], ast.Tuple) and chain[0].elts else (chain[0] if chain else None)
+            tail = pick_sl is not None and any(
+                isinstance(x, ast.Subscript) and isinstance(x.value, ast.Name) and x.value.id in acc and (
+                    (isinstance(x.slice, ast.Slice) and x.slice.lower is not None
+                     and isinstance(x.slice.lower, ast.UnaryOp) and isinstance(x.slice.lower.op, ast.USub))
+                    or (isinstance(x.slice, ast.UnaryOp) and isinstance(x.slice.op, ast.USub)))
+                for x in ast.walk(pick_sl))
+            if row_fresh and tail:
+                partial_mask = n_st
+                ex = [x for x in ex if x != (n, b, k)]
+        # (b) a mask on the operand itself must survive to the selection on EVERY path: a branch that rebinds
+        #     the operand to a fresh constant array (`p = np.ones_like(p)`) after the mask has to mask again
+        unmasked_path = None
+        for (n, b, k) in list(ex):
+            n_st = n if isinstance(n, ast.stmt) else tree.stmt_of(n)
+            if k != "M1" or b not in ops or not dominates(tree, n_st, s_stmt):
+                continue
+            mask_ids = {id(x if isinstance(x, ast.stmt) else tree.stmt_of(x))
+                        for (x, bb, kk) in exclusion_statements(L, picks) if kk == "M1" and bb == b}
+
+            from ..paths import MustAnalysis as _MA, describe as _describe
+
+            class Survives(_MA):
+                def __init__(self, fnode):
+                    super().__init__(fnode)
+                    self.bad = None
+
+                def gen(self, stmt):
+                    return ("m",) if id(stmt) in mask_ids else ()
+
+                def kill_tokens(self, stmt):
+                    if isinstance(stmt, ast.Assign) and len(stmt.targets) == 1 and isinstance(stmt.targets[0], ast.Name) \
+                            and stmt.targets[0].id == b and isinstance(stmt.value, ast.Call) \
+                            and (callname(stmt.value) or "").split(".")[-1] in (
+                                "ones_like", "zeros_like", "full_like", "ones", "zeros", "full", "empty", "empty_like"):
+                        return ("m",)
+                    return ()
+
+                def loop_iter_kill(self, loop):
+                    return ("m",) if loop is L else ()
+
+                def use(self, expr, state, stmt):
+                    if stmt is s_stmt and "m" not in state.tokens and self.bad is None:
+                        self.bad = _describe(state.facts)
+            sv = Survives(f.node).run()
+            if sv.bad is not None:
+                unmasked_path = (n_st, b, sv.bad)
+                ex = [x for x in ex if not (x[2] == "M1" and x[1] == b)]
         via_callee = False
         if not ex:
             for st in ast.walk(L):
@@ -954,7 +1017,12 @@ def check_exclusion_mechanisms(p, report, funcs, facts):
             ("M3: zero sampling mass at distance-to-selected" if sampling_m3 else ""))
         report.add("R1.4m", ent, construct, f"{f.file}:{S.lineno}", okm,
                    detail=("exclusion mechanism " + mech) if okm else
-                   (f"the operand is filled at positions `{stale[1]}`, computed from the pool mask `{stale[2]}` before the loop and "
+                   (f"`{norm_stmt(partial_mask, 60)}` marks only the LATEST pick in this iteration's fresh row: the picks before it "
+                    f"keep a number and can be selected again" if (partial_mask is not None and not ex) else
+                    f"on the path where {unmasked_path[2] or 'always'} `{unmasked_path[1]}` is rebound to a fresh constant array after "
+                    f"the mask `{norm_stmt(unmasked_path[0], 50)}` and not masked again before the selection"
+                    if (unmasked_path is not None and not ex) else
+                    f"the operand is filled at positions `{stale[1]}`, computed from the pool mask `{stale[2]}` before the loop and "
                     f"never refreshed: after the first pick the selector is stale and earlier picks keep a number"
                     if (stale and not ex) else
                     "the mask of earlier picks is written into this iteration's own row after the selection: it never "
